@@ -77,3 +77,26 @@ func (s *StakingMsgs) WithdrawDelegatorReward(ctx context.Context, msg *distrtyp
 	s.Recs = append(s.Recs, DelegationRec{Kind: "withdraw", Delegator: msg.DelegatorAddress, Validator: msg.ValidatorAddress})
 	return &distrtypes.MsgWithdrawDelegatorRewardResponse{}, nil
 }
+
+// StakingView models the read side of the staking keeper used by the crosschain module.
+type StakingView struct {
+	Unbonding [][]byte // delegators that still have an unbonding delegation in progress
+	Delegated []DelegationRec
+}
+
+func (s *StakingView) GetValidator(ctx context.Context, addr sdk.ValAddress) (stakingtypes.Validator, error) {
+	return stakingtypes.Validator{OperatorAddress: addr.String(), Status: stakingtypes.Bonded, Tokens: sdkmath.NewInt(1), DelegatorShares: sdkmath.LegacyOneDec()}, nil
+}
+
+func (s *StakingView) GetDelegation(ctx context.Context, del sdk.AccAddress, val sdk.ValAddress) (stakingtypes.Delegation, error) {
+	return stakingtypes.Delegation{}, stakingtypes.ErrNoDelegation
+}
+
+func (s *StakingView) GetUnbondingDelegation(ctx context.Context, del sdk.AccAddress, val sdk.ValAddress) (stakingtypes.UnbondingDelegation, error) {
+	for _, u := range s.Unbonding {
+		if string(u) == string(del) {
+			return stakingtypes.UnbondingDelegation{DelegatorAddress: del.String(), ValidatorAddress: val.String()}, nil
+		}
+	}
+	return stakingtypes.UnbondingDelegation{}, stakingtypes.ErrNoUnbondingDelegation
+}
